@@ -257,7 +257,23 @@ class ElemwiseFn:
                 else:
                     raise PyExc(ValueError, ("operands could not be broadcast together",))
             shp.append(ext)
-        return SymBlock(tuple(shp), blocks[0].dtype, None, f"{self.label}(...)")
+        origin = None
+        if all(getattr(b, "origin", None) is not None for b in blocks):
+            # provenance of an elementwise result: the argument elements it is computed from (NumPy broadcasting:
+            # an argument axis of extent 1 is read at 0)
+            def origin(loc, blocks=blocks, nd=nd):
+                names, idx = [], []
+                for b in blocks:
+                    off = nd - b.ndim
+                    bl = tuple(0 if interp.truth(b.shape[j] == 1) else loc[j + off] for j in range(b.ndim))
+                    nm, ix = b.origin(bl)
+                    al = getattr(getattr(sym.cur(), "case", None), "aliases", {})
+                    while nm in al:  # a rechunked copy holds the values of the array it was made from
+                        nm = al[nm]
+                    names.append(nm)
+                    idx.extend(ix)
+                return (f"{self.label}({','.join(names)})", tuple(idx))
+        return SymBlock(tuple(shp), blocks[0].dtype, origin, f"{self.label}(...)")
 
 
 class ShapePreservingFn:
